@@ -2,9 +2,13 @@
 
 Correspondence.  Every thread of a case executes a *program tree* through the real public API:
 
-  ["ext", wc, rc, how, hook, exc, body]   extract / extract_outermost(item, with_contexts=wc,
-        recurse_child_tasks=rc) on a synthetic item whose hook (unwrap_stackitem | elaborate_frame |
-        elaborate_context, all registered through the public registration API) runs `body`
+  ["ext", wc, rc, how, hook, exc, body]   one public entry point called with with_contexts=wc,
+        recurse_child_tasks=rc.  how = extract | outermost (extract_outermost) on a synthetic item, or
+        since_frame | since_none (extract_since(outer frame | None)) | until_int | until_none |
+        until_frame (extract_until(inner, limit=2 | None | outer frame)) on live frames of the calling
+        thread.  A hook (unwrap_stackitem | elaborate_frame | elaborate_context, all registered through
+        the public registration API; for the live forms elaborate_frame on the inner frame or
+        elaborate_context on a manager active in the outer frame) runs `body`
         and then returns, raises an Exception (contained by extract, propagated by
         extract_outermost) or raises a BaseException (propagates through every push)
   ["fill", exc, body]                     fill_context(Context(obj=mgr)) whose elaborate_context hook runs body
@@ -46,7 +50,8 @@ KINDS = {
     "exh": dict(imports=IMPORTS, type="xcase", mismatch="xmismatches", nontrivial="xcount_nontrivial"),
 }
 SHARD = 200
-RULE = ("per thread a random program tree (nesting <= 4 pushing levels, <= 14 operations) over extract/extract_outermost "
+RULE = ("per thread a random program tree (nesting <= 4 pushing levels, <= 14 operations) over all public entry points "
+        "(extract, extract_outermost, extract_since(frame|None), extract_until(limit=int|None|frame), fill_context outside) "
         "x {unwrap_stackitem, elaborate_frame, elaborate_context} hooks x 4 option pairs x {return, Exception, BaseException}, "
         "fill_context inside and outside an extraction, extract_child with and without for_task; 1-4 real threads stepped "
         "operation by operation through a sampled interleaving (uniform shuffles, round-robin, block-wise); kind 'exh': all "
@@ -67,7 +72,8 @@ CONFIG = dict(
     design_ref="DESIGN.md section 5 C13",
     trusted_base=["model M_Options.v (store machine for current_options / push / extract_child / fill_context) is hand-written",
                   "harness/facts_c13.py (ast, fail-closed): ExtractOptions derives from threading.local with a single module-level instance; "
-                  "push restores the saved pair in `finally`; extract/extract_outermost/fill_context push as modelled; every Stack built in "
+                  "push restores the saved pair in `finally`; extract/extract_outermost/fill_context push as modelled and every return path of "
+                  "extract_since/extract_until is an extract(...) call forwarding both options; every Stack built in "
                   "_extract.py owns a fresh frames list (no mutable default argument, no module-level list, `frames` of every Stack(...) is a "
                   "fresh local list) -- list identity is not represented in M_Options, the fact enters C13_instance only",
                   "the stepping harness parks every thread but one between operations; the GIL makes one operation atomic w.r.t. the others"],
@@ -86,6 +92,10 @@ NOTES = ("Deviations from DESIGN: histories are program trees (flattened to op l
          "nests without pushing); own structural facts c13_* instead of the name-sensitive push_restores_in_finally")
 
 OPTS = [(False, False), (False, True), (True, False), (True, True)]
+# entry points that work on live frames of the calling thread (hooks: elaborate_frame on the inner
+# frame, elaborate_context on a manager active in the outer frame)
+LIVE = ("since_frame", "since_none", "until_int", "until_none", "until_frame")
+HOWS = ("extract", "outermost") + LIVE
 
 
 # ----------------------------------------------------------------- program trees
@@ -117,9 +127,12 @@ def gen_prog(rng, depth, budget, scope):
             exc = rng.choice(["none", "none", "none", "exc", "base"])
             if z < 0.80:
                 wc, rc = rng.choice(OPTS)
-                hooks = ["unwrap", "elab"] + (["ectx", "ectx"] if wc else [])
+                y = rng.random()
+                how = ("extract" if y < 0.45 else "outermost" if y < 0.6 else
+                       rng.choice(["since_frame", "until_int", "until_frame", "until_frame", "since_none", "until_none"]))
+                hooks = ([] if how in LIVE else ["unwrap"]) + ["elab"] + (["ectx", "ectx"] if wc else [])
                 body, u = gen_prog(rng, depth - 1, left - 2, (wc, rc))
-                prog.append(["ext", wc, rc, "outermost" if rng.random() < 0.25 else "extract", rng.choice(hooks), exc, body])
+                prog.append(["ext", wc, rc, how, rng.choice(hooks), exc, body])
             elif z < 0.92 or scope is None:
                 inner = scope if scope is not None else (True, False)
                 body, u = gen_prog(rng, depth - 1, left - 2, inner)
@@ -188,13 +201,13 @@ TF, TT, FF, FT = (True, False), (True, True), (False, False), (False, True)
 
 CATALOGUE = [
     [E(FF, [R, CT])],                                             # 4
-    [E(TT, [R, CT], hook="ectx")],                                # 4
-    [E(FT, [R], exc="base"), CT],                                 # 4
+    [E(TT, [R, CT], hook="ectx", how="until_frame")],             # 4
+    [E(FT, [R], exc="base", how="since_frame", hook="elab"), CT], # 4
     [E(TF, [CT], how="outermost", exc="exc"), R],                 # 4
     [["fill", "none", [R, CT]]],                                  # 4
     [["fill", "exc", [CT]], CT],                                  # 4
     [E(TT, [E(FF, [R], exc="base"), R, CT], hook="elab")],        # 7 -> trimmed below to 6
-    [E(FF, [E(TT, [CT], hook="ectx")]), R],                       # 6
+    [E(FF, [E(TT, [CT], hook="ectx", how="until_int")], how="since_none", hook="elab"), R],   # 6
     [E(TF, [["fill", "none", [R]], CT], hook="ectx")],            # 6
     [E(FT, [["same", "elab", "none", [R, CT]]])],                 # 6
     [CT, E(TT, [CT]), CT],                                        # 5
@@ -208,10 +221,19 @@ def specials():
     yield {"threads": [[["fill", "none", [R, CT, CF]], CT]], "sched": [0] * 6}      # fill outside pushes (True, False)
     for o in OPTS:
         for hook in ("unwrap", "elab") + (("ectx",) if o[0] else ()):
-            for how in ("extract", "outermost"):
+            for how in HOWS:
+                if how in LIVE and hook == "unwrap":
+                    continue
                 for exc in ("none", "exc", "base"):
                     p = [E(o, [R, CT, CF], how=how, hook=hook, exc=exc), CT, R]
                     yield {"threads": [p], "sched": [0] * nops(p)}
+    # every live entry point nested in every other one, inner options opposite to the outer ones
+    for h1 in LIVE:
+        for h2 in LIVE:
+            for o in OPTS:
+                o2 = (not o[0], not o[1])
+                p = [E(o, [E(o2, [R, CT], how=h2, hook="elab"), R, CT], how=h1, hook=("ectx" if o[0] else "elab")), CT]
+                yield {"threads": [p], "sched": [0] * nops(p)}
     # nesting depth 4, each level another pair, exceptions at each level in turn
     for lvl in range(5):
         for kind in ("exc", "base"):
@@ -274,6 +296,7 @@ def _setup():
     """item classes and hooks, registered once per process through the public API"""
     if _S:
         return _S
+    import sys
     import stackscope
     from stackscope import unwrap_stackitem, elaborate_frame, elaborate_context
 
@@ -328,8 +351,26 @@ def _setup():
         next(g)
         return g
 
+    # live frames for extract_since / extract_until: entry_outer -> entry_inner -> go(outer, inner)
+    def entry_inner(payload, go, outer):
+        inner = sys._getframe(0)
+        return go(outer, inner)
+
+    def entry_outer(payload, go, mgr):
+        outer = sys._getframe(0)
+        with mgr:
+            return entry_inner(payload, go, outer)
+
+    @elaborate_frame.register(entry_inner)
+    def _ei(frame, next_inner):
+        p = frame.pyframe.f_locals.get("payload")
+        if p is not None:
+            p()
+        return None
+
     _S.update(PlainMgr=PlainMgr, HookMgr=HookMgr, UItem=UItem, task_fn=task_fn, outer_fn=outer_fn,
-              carrier_elab=carrier_elab, carrier_ctx=carrier_ctx, started=started, stackscope=stackscope)
+              carrier_elab=carrier_elab, carrier_ctx=carrier_ctx, started=started, stackscope=stackscope,
+              entry_outer=entry_outer)
     return _S
 
 
@@ -472,7 +513,8 @@ class Runner:
     def payload(self, body, exc, ran):
         def fn():
             if ran[0]:
-                self.notes.append("hook invoked twice")
+                # extract_since(None) / extract_until(limit=None) of a nested level walk the live frames
+                # of the enclosing levels again: their hooks fire once more and must not re-run the body
                 return
             ran[0] = True
             self.run_body(body)
@@ -525,9 +567,23 @@ class Runner:
             elif k == "ext":
                 _, wc, rc, how, hook, exc, sub = nd
                 ran = [False]
-                item = self.item_for(hook, self.payload(sub, exc, ran))
-                f = ss.extract if how == "extract" else ss.extract_outermost
-                self.call(sub, exc, ran, lambda: f(item, with_contexts=wc, recurse_child_tasks=rc))
+                fn = self.payload(sub, exc, ran)
+                kw = dict(with_contexts=wc, recurse_child_tasks=rc)
+                if how in LIVE:
+                    go = {"since_frame": lambda o, i: ss.extract_since(o, **kw),
+                          "since_none": lambda o, i: ss.extract_since(None, **kw),
+                          "until_int": lambda o, i: ss.extract_until(i, limit=2, **kw),
+                          "until_none": lambda o, i: ss.extract_until(i, limit=None, **kw),
+                          "until_frame": lambda o, i: ss.extract_until(i, limit=o, **kw)}[how]
+                    S = self.S
+                    if hook == "ectx":
+                        self.call(sub, exc, ran, lambda: S["entry_outer"](None, go, S["HookMgr"](fn)))
+                    else:
+                        self.call(sub, exc, ran, lambda: S["entry_outer"](fn, go, S["PlainMgr"]()))
+                else:
+                    item = self.item_for(hook, fn)
+                    f = ss.extract if how == "extract" else ss.extract_outermost
+                    self.call(sub, exc, ran, lambda: f(item, **kw))
             elif k == "fill":
                 _, exc, sub = nd
                 ran = [False]
